@@ -98,6 +98,9 @@ def public_calls(ctx):
         return
     with quiet_stderr():
         run_cases(ctx, "public_calls/arguments_unchanged_repeatable_input_forms", cs)
+    if isinstance(getattr(ctx, "explanation", None), str) and "public-call contracts" not in ctx.explanation:
+        ctx.explanation += (" B (generic): public-call contracts on sample calls of the entry points the property is observed at -- the caller's arguments are unchanged, a second call and the same "
+                            "call after the other calls return the same, an earlier result is not modified by later calls, other accepted input forms (list, integer / float32 dtype, other memory layout) agree.")
 
 
 def run_cases(ctx, ident, cases, tol=1e-7, forms=True):
